@@ -8,8 +8,10 @@ GOOD_PRAGMAS = ["#version gdc-1.0.0", "#annotation.spec gdc-1.0.0-public", "#ann
                 "#center broad.mit.edu", "#note made by the harness", "#n.samples 4", "#filedate 2020-01-01 ",
                 "#version gdc-2.0.0", "#version no-version", "#annotation.spec no-annotation-specification",
                 "#annotation.spec nothing-known", "#sort.order Bogus", "#contigs ", "#contigs a", "#k v w  x",
-                "#key value\t", "#key \tvalue", "#tab\tkey value", "#unicode Ünï", "#key value "]
-BAD_HEADER = ["#", "##", "# ", "#key", "#key ", "# value", "#  ", "#key  ", "#key   \t", "# key value", "#=", "#\tx y"]
+                "#key value\t", "#key \tvalue", "#tab\tkey value", "#unicode Ünï", "#key value ",
+                # a key may itself start with the line symbol (VCF-style double hash): only ONE symbol starts the line
+                "##source caller-x", "##version gdc-1.0.0", "##contigs a,b", "##sort.order Coordinate", "###three hashes", "##center x"]
+BAD_HEADER = ["#", "##", "# ", "#key", "#key ", "# value", "#  ", "#key  ", "#key   \t", "# key value", "#=", "#\tx y", "## free text", "##key", "## "]
 
 
 def header_lines(rng, n=None, allow_bad=True):
